@@ -265,11 +265,12 @@ def skip_rms(rng, dtype, B, S, D, bias="none", skip_first=False, eps=1e-6, rank2
 
 
 def skip_layer_norm(rng, dtype, B, S, D, bias="none", skip_first=False, eps=1e-5, rank2=False, no_beta=False, axis_pos=False,
-                    use_sum=True):
+                    use_sum=True, small_var=False):
     shape = (S, D) if rank2 else (B, S, D)
     has_bias, pre = bias != "none", bias == "pre"
     bias_pre, bias_post = has_bias and pre, has_bias and not pre
-    EPS = float(eps)
+    no_eps = eps is None            # LayerNormalization without an epsilon attribute: the ONNX default 1e-5 applies
+    EPS = float(eps) if eps is not None else 1e-5
     AXIS = (len(shape) - 1) if axis_pos else -1
 
     @script()
@@ -283,7 +284,9 @@ def skip_layer_norm(rng, dtype, B, S, D, bias="none", skip_first=False, eps=1e-5
             s = op.Add(x0, skip)
         if bias_post:
             s = op.Add(s, b)
-        if no_beta:
+        if no_eps:
+            out = op.LayerNormalization(s, gamma, beta, axis=AXIS)
+        elif no_beta:
             out = op.LayerNormalization(s, gamma, axis=AXIS, epsilon=EPS)
         else:
             out = op.LayerNormalization(s, gamma, beta, axis=AXIS, epsilon=EPS)
@@ -295,11 +298,13 @@ def skip_layer_norm(rng, dtype, B, S, D, bias="none", skip_first=False, eps=1e-5
 
     second_t = T(dtype)[shape] if use_sum else T(dtype)[D]
     cls = f"dtype={dtype};bias={bias};{'skip_first' if skip_first else 'input_first'}" + (";rank2" if rank2 else "") + \
-          (";no_beta" if no_beta else "") + (";axis_pos" if axis_pos else "") + ("" if use_sum else ";sum_internal")
+          (";no_beta" if no_beta else "") + (";axis_pos" if axis_pos else "") + ("" if use_sum else ";sum_internal") + \
+          (";eps_default" if no_eps else "") + (";small_var" if small_var else "")
+    sc = 1e-3 if small_var else 1.0   # small per-row variance makes the epsilon matter
     return {"fusion": "skip_layer_normalization", "cls": cls, "fn": sln,
             "in": [T(dtype)[shape], T(dtype)[shape], T(dtype)[D], T(dtype)[D], T(dtype)[D]], "out": [T(dtype)[shape], second_t],
-            "feeds": {"inp": rnd(rng, shape, dtype), "skip": rnd(rng, shape, dtype), "gamma": (rnd(rng, (D,), dtype) * 0.5 + 1).astype(npdt(dtype)),
-                      "beta": rnd(rng, (D,), dtype), "b": rnd(rng, (D,), dtype)},
+            "feeds": {"inp": rnd(rng, shape, dtype, scale=sc), "skip": rnd(rng, shape, dtype, scale=sc), "gamma": (rnd(rng, (D,), dtype) * 0.5 + 1).astype(npdt(dtype)),
+                      "beta": rnd(rng, (D,), dtype), "b": rnd(rng, (D,), dtype, scale=sc)},
             "pipe": ["skip_layer_normalization"], "near_miss": rank2 or no_beta or axis_pos}
 
 
@@ -783,6 +788,9 @@ def fused_matmul(rng, kind, rank=2, perm_kind="last2", div=None, div_shape="scal
             p = p[1:-1] + [p[0], p[-1]]
         elif perm_kind == "other":
             p = p[::-1]
+        elif perm_kind == "swapbatch_last2":   # [1, 0, ..., N-1, N-2]: ends like a matrix transpose but also permutes batch dims
+            p[0], p[1] = p[1], p[0]
+            p[-1], p[-2] = p[-2], p[-1]
         return p
 
     r = len(lead) + 2
@@ -840,7 +848,7 @@ def fused_matmul(rng, kind, rank=2, perm_kind="last2", div=None, div_shape="scal
     cls = f"{kind};rank={r};perm={perm_kind}" + (f";div={div_shape}" if post_div else "") + f";dtype={dtype}" + (";square" if square else "")
     return {"fusion": "fused_matmul", "cls": cls, "fn": fm, "in": [Tt[xs], Tt[ys]], "out": [Tt[zs]],
             "feeds": {"x": rnd(rng, xs, dtype), "y": rnd(rng, ys, dtype)}, "pipe": ["fused_matmul"],
-            "near_miss": perm_kind == "other" or div_shape == "vec"}
+            "near_miss": perm_kind in ("other", "swapbatch_last2") or div_shape == "vec"}
 
 
 def softmax_upcast(rng, shape, axis=-1, no_axis=False, dtype_in="f16", up_to="f32"):
